@@ -35,9 +35,11 @@ def run(ctx):
     if ctx.quick:
         mc_feat.run_amp(ctx, 'C07', 7, 3)
         pipeline.run_corpus(ctx, 220, PREFIXES, seed_offset=7, mutate_opts=amp, kinds=['sine_bursts', 'asym', 'powerlaw_osc', 'two_osc', 'clipped', 'zeroed', 'dc_offset', 'quantised'])
+        pipeline.run_large(ctx, PREFIXES, 7, 3, 1, mutate_opts=amp)          # beyond small scopes: long cycles, long recordings
     else:
         mc_feat.run_amp(ctx, 'C07', 8, 4)
         pipeline.run_corpus(ctx, 4000, PREFIXES, seed_offset=7, mutate_opts=amp, max_len=2600)
+        pipeline.run_large(ctx, PREFIXES, 7, 12, 6, mutate_opts=amp)          # beyond small scopes: long cycles, long recordings
 
 
 def replay(ctx, case):
